@@ -582,6 +582,29 @@ def check_property_(pid, tier, seed):
 def replay(path):
     """rebuild the declaration of a replay file from the current tree and re-run its witness"""
     j = json.load(open(path))
+    if j.get('kind') == 'source-slice':
+        # re-run the slice stage on the current tree for this function, and recompile the recorded witness program
+        P.ensure_framework()
+        ws = P.Workspace('replay', 0, extra='slice|' + hashlib.sha256(json.dumps(j, sort_keys=True).encode()).hexdigest())
+        ws.lock()
+        try:
+            r = P.stage_srcslice(ws)
+            u = [x for x in r['units'] if x['label'][4:] == j.get('function')]
+            for x in u:
+                print('source slice %s: %s%s' % (x['label'][4:], x['status'],
+                                                  '; first difference ' + x['first_diff'] if x.get('first_diff') else ''))
+            w = j.get('witness') or {}
+            if w.get('program'):
+                acc, msgs = P.probe_check(ws, w['program'])
+                print('witness program: %s %s' % ('compiles' if acc else 'is rejected', json.dumps(msgs)[:300]))
+                expect_accept = 'but it is rejected' in (w.get('what') or '')
+                if acc != expect_accept:
+                    print('REPRODUCED: %s' % w.get('what'))
+                    return 1
+                print('NOT REPRODUCED: the witness program now behaves as the rules say')
+            return 1 if any(x['status'] == 'differs' for x in u) else 0
+        finally:
+            ws.unlock()
     if 'decl_json' not in j:
         print('replay: %s names %s; nothing executable to re-run' % (path, j.get('theorem') or j.get('kind')))
         return 0
